@@ -90,7 +90,8 @@ def run_isolated(mid, props):
     results = {}
     for p in props:
         t0 = time.time()
-        rc, out = sh(f"unshare -m bash -c 'mount --bind {copy} /repo && cd {ROOT} && python3 check.py {p} --tier quick'", timeout=3600)
+        rc, out = sh(f"unshare -m bash -c 'mount --bind {copy} /repo && cd {ROOT} && python3 check.py {p} --tier quick'", timeout=3600,
+                     env={"VERIF_TARGET_DIR": "/tmp/seed_target"})
         vio = [l for l in out.splitlines() if l.startswith("VIOLATION")]
         first = ""
         lines = out.splitlines()
